@@ -10,7 +10,8 @@
    table.  [katz] (Spec.v) is the back-off recursion evaluated directly on the table;
    [spec_at]/[spec_full] tabulate it for a batch of left-padded histories. *)
 From Coq Require Import List ZArith Bool Arith.
-From PV Require Import C06.Model C06.Spec C06.Proofs.
+From Coq Require Import Lia.
+From PV Require Import C06.Model C06.Spec C06.Proofs C06.ProofsArpa.
 Import ListNotations.
 Local Open Scope Z_scope.
 
@@ -82,3 +83,126 @@ Theorem c06_chunked_eq_pointwise : forall b sh hist B chunk,
   opt_all (map (fun i => lookup_batch b sh hist B (Scalar (Z.of_nat i))) (seq 0 (S (length hist)))).
 Proof. exact chunked_pointwise. Qed.
 Print Assumptions c06_chunked_eq_pointwise.
+
+(* "with a different index per batch element": calc_idx_log_probs with a vector of indices
+   (one per batch element, B >= 2; a one-element vector is squeezed to a scalar by __call__) *)
+Theorem c06_per_element_index_is_katz : forall b sh t hist B l,
+  trie_okb b sh (tmap sh t) = true -> tab_okb (vocab sh) (sos sh) t = true ->
+  hist_ok sh hist B -> length l = B -> (2 <= B)%nat ->
+  Forall (fun i => (i <= length hist)%nat) l ->
+  lookup_batch b sh hist B (Vec (map Z.of_nat l)) =
+  Some (spec_at t (order sh) (vocab sh) (sos sh) hist B l).
+Proof. exact lookup_vec_katz. Qed.
+Print Assumptions c06_per_element_index_is_katz.
+
+Theorem c06_call_with_index_vector_is_katz : forall b sh t hist B zs,
+  trie_okb b sh (tmap sh t) = true -> tab_okb (vocab sh) (sos sh) t = true ->
+  hist_ok sh hist B -> length zs = B -> (2 <= B)%nat ->
+  Forall (fun i => - zlen hist - 1 <= i <= zlen hist) zs ->
+  forward b sh hist B (Some (Vec zs)) =
+  Some (AtIdx (spec_at t (order sh) (vocab sh) (sos sh) hist B (map (wrap_idx (zlen hist)) zs))).
+Proof. exact forward_vec_katz. Qed.
+Print Assumptions c06_call_with_index_vector_is_katz.
+
+(* per-element independence, for ANY buffers of consistent lengths: element bi of the result
+   is a function of column bi and its own index only *)
+Theorem c06_batch_elements_independent : forall b sh hist B l,
+  lens_ok b sh = true -> (1 <= order sh)%nat -> length l = B -> (2 <= B)%nat ->
+  Forall (fun i => (i <= length hist)%nat) l ->
+  lookup_batch b sh hist B (Vec (map Z.of_nat l)) = Some (batch_rows b sh hist B l).
+Proof. exact lookup_batch_vec. Qed.
+Print Assumptions c06_batch_elements_independent.
+
+(* "arbitrarily sparse ... (including missing lower-order suffixes)": the entries
+   _build_trie adds for missing suffixes / unigrams are (-inf, 0) and do not change the
+   recursion *)
+Theorem c06_closure_entries_are_neutral : forall lo ks, exists extra,
+  add_missing lo ks = lo ++ extra /\ Forall (fun e => snd e = (NInf, Fin 0)) extra.
+Proof. exact add_missing_tfind. Qed.
+Print Assumptions c06_closure_entries_are_neutral.
+
+Theorem c06_closure_harmless : forall t extra ctx v,
+  Forall (fun e => snd e = (NInf, Fin 0)) extra -> katz (t ++ extra) ctx v = katz t ctx v.
+Proof. exact katz_add_neutral. Qed.
+Print Assumptions c06_closure_harmless.
+
+(* "after the model is saved and loaded into a freshly constructed instance": PARTIAL.
+   Full statement wanted: for every table, infer_shape V s (bt_bufs (build_trie V s dicts))
+   returns the constants build_trie computed.  Proved here: IF load_state_dict's inference
+   returns the constants of the saved model (the harness checks exactly this premise on the
+   implementation's actual buffers for every generated table), the reloaded model is the saved
+   one, hence computes the same numbers for every query.  Missing: the proof that
+   _build_trie's layout always satisfies the premise. *)
+Theorem c06_reload_same_partial : forall b sh hist B ix,
+  infer_shape (vocab sh) (sos sh) b = Some (order sh, gnodes sh, Z.of_nat (maxdesc sh)) ->
+  forall N G S_, infer_shape (vocab sh) (sos sh) b = Some (N, G, S_) ->
+  forward b (mkShape (vocab sh) (sos sh) N G (Z.to_nat S_)) hist B ix = forward b sh hist B ix.
+Proof. exact reload_same. Qed.
+Print Assumptions c06_reload_same_partial.
+
+(* "Reading an ARPA file yields exactly its listed entries": any sequence of lines whose
+   non-blank lines are  <anything without \data\>, \data\, the counts, the sections in
+   increasing order, \end\, <anything>  parses to exactly the listed entries (back-off weight 0
+   when omitted, none stored for the highest order), whatever words happen to look like
+   numbers.  Base 10 is the identity on the listed numbers; the base-e conversion is one IEEE
+   division per number and is checked by the harness (Coq does not model floats). *)
+Theorem c06_arpa_listed_entries : forall wf pre post secs ls,
+  filter nonblank ls = arpa_lines wf pre post secs ->
+  Forall (fun l => l <> LData) pre ->
+  (forall n, (1 <= n <= length secs)%nat -> section_ok (length secs) n (nth_sec secs n)) ->
+  parse_arpa ls = Some (arpa_dicts secs).
+Proof. exact parse_wellformed. Qed.
+Print Assumptions c06_arpa_listed_entries.
+
+(* ---------- non-vacuity ---------------------------------------------------------------------------- *)
+
+(* an order-3 table with missing suffixes and an out-of-vocabulary start symbol, and the
+   buffers the implementation builds for it, meet the hypotheses of the theorems above *)
+Definition ex_tab : tab :=
+  [([0], (Fin (-8), Fin (-4))); ([1], (Fin (-16), Fin (-2)));
+   ([0; 1], (Fin (-4), Fin (-1))); ([1; 1], (Fin (-6), Fin 0));
+   ([2; 0; 1], (Fin (-2), Fin 0)); ([0; 1; 1], (Fin (-12), Fin 0)); ([1; 2; 0], (Fin (-24), Fin 0))].
+Definition ex_sh : shape := mkShape 3 5 3 3 2.
+Definition ex_bufs : bufs :=
+  mkBufs [5; 5; 6; 5; 4; 4; 4; 4; 4] [2; 0; 1; 0; 1; 2; 0]
+         [Fin (-8); Fin (-16); NInf; NInf; NaN; NInf; Fin (-4); Fin (-6); NaN; Fin (-24); Fin (-2); Fin (-12)]
+         [Fin (-4); Fin (-2); Fin 0; Fin 0; NaN; Fin 0; Fin (-1); Fin 0; NaN].
+
+Example c06_nonvacuous :
+  trie_okb ex_bufs ex_sh (tmap ex_sh ex_tab) = true /\
+  tab_okb 3 5 ex_tab = true /\
+  hist_ok ex_sh [[0; 1]; [1; 2]; [1; 0]] 2 /\
+  forward ex_bufs ex_sh [[0; 1]; [1; 2]; [1; 0]] 2 (Some (Vec [1; 3])) =
+    Some (AtIdx [[Fin (-12); Fin (-4); NInf]; [Fin (-12); Fin (-2); NInf]]) /\
+  option_map bt_bufs (build_trie 3 5
+     [[([0], (Fin (-8), Fin (-4))); ([1], (Fin (-16), Fin (-2)))];
+      [([0; 1], (Fin (-4), Fin (-1))); ([1; 1], (Fin (-6), Fin 0))];
+      [([2; 0; 1], (Fin (-2), Fin 0)); ([0; 1; 1], (Fin (-12), Fin 0)); ([1; 2; 0], (Fin (-24), Fin 0))]])
+    = Some ex_bufs /\
+  infer_shape 3 5 ex_bufs = Some (3%nat, 3, 2).
+Proof.
+  split; [vm_compute; reflexivity|]. split; [vm_compute; reflexivity|].
+  split; [|split; [vm_compute; reflexivity|split; vm_compute; reflexivity]].
+  split.
+  - repeat (apply Forall_cons; [reflexivity|]). apply Forall_nil.
+  - repeat (first [apply Forall_nil | apply Forall_cons]); unfold tok_ok; cbn; lia.
+Qed.
+
+Example c06_nonvacuous_arpa :
+  let secs := [[mkEntry (-8) [0] (Some (None, -4)); mkEntry (-16) [1] None];
+               [mkEntry (-4) [0; 1] None; mkEntry (-6) [1; 1] None]] in
+  let ls := [LOther; LBlank; LData; LCount 1 2; LCount 2 2; LBlank; LHeader 1;
+             LEntry (-8) [Field (Some 0) None; Field None (Some (-4))];
+             LEntry (-16) [Field (Some 1) (Some 8)]; LBlank; LHeader 2;
+             LEntry (-4) [Field (Some 0) None; Field (Some 1) (Some 8)];
+             LEntry (-6) [Field (Some 1) (Some 8); Field (Some 1) (Some 8)]; LBlank; LEnd] in
+  filter nonblank ls = arpa_lines (fun x => if x =? 1 then Some 8 else None) [LOther] [] secs /\
+  (forall n, (1 <= n <= 2)%nat -> section_ok 2 n (nth_sec secs n)) /\
+  parse_arpa ls = Some [[([0], (Fin (-8), Fin (-4))); ([1], (Fin (-16), Fin 0))];
+                        [([0; 1], (Fin (-4), Fin 0)); ([1; 1], (Fin (-6), Fin 0))]].
+Proof.
+  cbv zeta. split; [reflexivity|]. split; [|vm_compute; reflexivity].
+  intros n Hn. assert (n = 1 \/ n = 2)%nat as [->| ->] by lia; unfold section_ok, nth_sec; cbn.
+  - split; [repeat constructor; intros; lia|]. repeat constructor; cbn; intuition discriminate.
+  - split; [repeat constructor; intros; reflexivity|]. repeat constructor; cbn; intuition discriminate.
+Qed.
